@@ -190,11 +190,19 @@ def run(chk):
         target = oqupy.operators.spin_dm("z-").T
         info = {"envs": len(ops), "parameter_table": shape, "derivatives": "user-supplied" if supplied else "numerical", "purely_coherent": coherent, "parameters": params.tolist()}
         try:
+            # the system does not depend on time explicitly: a start time only relabels the reported dynamics.  Every run: none,
+            # one beyond the end of the run (2.0 > N dt), one inside it, a negative one
+            st_ = [0.0, 2.0, 0.3, -1.0][it % 4]
+            info["start_time"] = st_
             res = quiet(oqupy.state_gradient, system=psys, initial_state=rho0, target_derivative=target, process_tensors=pts,
-                        parameters=params.copy(), progress_type="silent")
+                        parameters=params.copy(), progress_type="silent", **({"start_time": st_} if st_ != 0.0 else {}))
         except Exception as ex:
             chk.fail("gradient-raises", f"state_gradient raises {ex!r}", info)
             continue
+        rt_ = [float(t_) for t_ in res["dynamics"].times]
+        if len(rt_) != N + 1 or max(abs(t_ - (st_ + k_ * 0.2)) for k_, t_ in enumerate(rt_)) > 1e-9:
+            chk.fail("gradient-dynamics-times", f"state_gradient(start_time={st_}, {N} steps of 0.2) reports its dynamics at times {rt_}, the forward dynamics are at "
+                     f"start_time + k dt = {[st_ + k_ * 0.2 for k_ in range(N + 1)]}", info)
 
         def own_liouvillian(x, y):
             # independent of ParameterizedSystem: row-major vectorisation, vec(A rho B) = kron(A, B^T) vec(rho)
